@@ -44,7 +44,7 @@ InitWith(pre) ==
   /\ mine = [t \in All |-> 0] /\ found = [t \in All |-> 0]
   /\ bad = "" /\ retTo = [t \in All |-> "u_use"]
 Init == InitWith(Pre)
-Touch(n) == IF nstate[n] # "alloc" THEN "use-after-free" ELSE bad
+Touch(n) == IF nstate[n] \notin {"alloc", "unlinked"} THEN "use-after-free" ELSE bad
 Go(t, lbl) == pc' = [pc EXCEPT ![t] = lbl]
 \* ---------- GF table init (rs_galois_init_tables) ----------
 GfLock(t, lbl) == IF Safe THEN gfMu = 0 /\ gfMu' = t /\ Go(t, lbl) ELSE gfMu' = gfMu /\ Go(t, lbl)
@@ -104,7 +104,7 @@ L_unlock(t) == pc[t] = "l_walk" /\ ~(NoMatchHere(t) /\ NextOf(t) # 0)
             /\ UNCHANGED <<head, nxt, idesc, nstate, nextDesc, rwW, gfCnt, gfTab, gfMu, cur, want, mine>>
 \* ---------- use: the backend's encode reads the tables; afterwards encode_cleanup looks the descriptor up again ----------
 U_use(t) == pc[t] = "u_use" /\ bad' = (IF found[t] = 0 THEN "lookup-missed-live-instance"
-                                        ELSE IF nstate[found[t]] # "alloc" THEN "use-after-free"
+                                        ELSE IF nstate[found[t]] \notin {"alloc", "unlinked"} THEN "use-after-free"
                                         ELSE IF gfTab # "ready" THEN "tables-not-ready" ELSE bad)
             /\ Go(t, "l_lock") /\ retTo' = [retTo EXCEPT ![t] = "cleanup"]
             /\ UNCHANGED <<head, nxt, idesc, nstate, nextDesc, rwW, rwR, gfCnt, gfTab, gfMu, cur, want, mine, found>>
@@ -116,12 +116,15 @@ D_gf1(t) == pc[t] = "d_gf1" /\ gfCnt' = gfCnt - 1 /\ gfTab' = (IF gfCnt - 1 = 0 
             /\ UNCHANGED <<head, nxt, idesc, nstate, nextDesc, rwW, rwR, cur, want, mine, found, bad, retTo>>
 D_wr(t) == pc[t] = "d_wr" /\ rwW = 0 /\ rwR = {} /\ rwW' = t /\ Go(t, "d_rm")
             /\ UNCHANGED <<head, nxt, idesc, nstate, nextDesc, rwR, gfCnt, gfTab, gfMu, cur, want, mine, found, bad, retTo>>
+\* SLIST_REMOVE walks from the head: the predecessor is a node that is still LINKED (state "alloc"); a node that has
+\* been unlinked but not yet freed keeps a stale next pointer and must not be mistaken for the predecessor
 D_rm(t) == pc[t] = "d_rm" /\ (LET n == mine[t] IN
               IF head = n THEN head' = nxt[n] /\ nxt' = nxt
               ELSE (LET p == CHOOSE q \in AllNodes : nstate[q] = "alloc" /\ nxt[q] = n IN
                    nxt' = [nxt EXCEPT ![p] = nxt[n]] /\ head' = head))
+            /\ nstate' = [nstate EXCEPT ![mine[t]] = "unlinked"]
             /\ Go(t, "d_un")
-            /\ UNCHANGED <<idesc, nstate, nextDesc, rwW, rwR, gfCnt, gfTab, gfMu, cur, want, mine, found, bad, retTo>>
+            /\ UNCHANGED <<idesc, nextDesc, rwW, rwR, gfCnt, gfTab, gfMu, cur, want, mine, found, bad, retTo>>
 D_un(t) == pc[t] = "d_un" /\ rwW' = 0 /\ Go(t, "d_free")
             /\ UNCHANGED <<head, nxt, idesc, nstate, nextDesc, rwR, gfCnt, gfTab, gfMu, cur, want, mine, found, bad, retTo>>
 D_free(t) == pc[t] = "d_free" /\ nstate' = [nstate EXCEPT ![mine[t]] = "freed"] /\ Go(t, "done")
